@@ -391,12 +391,95 @@ def rule_t4(repo, col):
     col.floor("T4.token_actions", n, 30)
 
 
+def rule_t5(repo, col):
+    """writer/reader agreement between the number regex and the token classifier"""
+    import re._parser as sre_parse
+    import re._constants as sre_c
+
+    m = repo.module(MOD)
+    vals = m.assigns.get("RE_FLOAT")
+    if not vals or not (isinstance(vals[-1], ast.Call) and dotted(vals[-1].func) == "re.compile" and isinstance(vals[-1].args[0], ast.Constant)):
+        raise AnalysisError("RE_FLOAT = re.compile(<literal>) not found")
+    pattern = vals[-1].args[0].value
+    tree = sre_parse.parse(pattern)
+    # top-level alternatives
+    alts = None
+    for op, av in tree:
+        if op is sre_c.BRANCH:
+            alts = av[1]
+    if alts is None or len(alts) != 2:
+        raise AnalysisError("RE_FLOAT: two top-level alternatives (hex | decimal) expected")
+
+    def literals(sub):
+        out = set()
+        for op, av in sub:
+            if op is sre_c.LITERAL:
+                out.add(chr(av))
+            elif op is sre_c.IN:
+                for o2, a2 in av:
+                    if o2 is sre_c.LITERAL:
+                        out.add(chr(a2))
+                    elif o2 is sre_c.RANGE:
+                        lo, hi = a2
+                        if hi - lo < 30:
+                            out.update(chr(x) for x in range(lo, hi + 1))
+            elif op in (sre_c.MAX_REPEAT, sre_c.MIN_REPEAT):
+                out |= literals(av[2])
+            elif op is sre_c.SUBPATTERN:
+                out |= literals(av[3])
+            elif op is sre_c.BRANCH:
+                for b in av[1]:
+                    out |= literals(b)
+        return out
+
+    hexlits = literals(alts[0])
+    declits = literals(alts[1])
+    markers = set(ch for ch in declits if not ch.isdigit() and ch not in "+-")
+    if not markers or "0" not in declits:
+        raise AnalysisError("RE_FLOAT: decimal alternative not understood")
+    c = _cls(repo)
+    f = c.methods.get("_token_number")
+    if f is None:
+        raise AnalysisError("PrologParser._token_number missing")
+    # the branch that yields SPECIAL_FLOAT
+    chain = [st for st in f.node.body if isinstance(st, ast.If)]
+    if len(chain) != 1:
+        raise AnalysisError("_token_number: one if-chain expected")
+    cur = chain[0]
+    float_test = None
+    int_default = False
+    hex_first = False
+    while True:
+        rets = [norm(r) for r in cur.body if isinstance(r, ast.Return)]
+        if any("SPECIAL_FLOAT" in r for r in rets):
+            float_test = cur.test
+        if any("SPECIAL_HEX_INTEGER" in r for r in rets) and float_test is None:
+            hex_first = True
+        if len(cur.orelse) == 1 and isinstance(cur.orelse[0], ast.If):
+            cur = cur.orelse[0]
+            continue
+        int_default = any(isinstance(r, ast.Return) and "SPECIAL_INTEGER" in norm(r) for r in cur.orelse)
+        break
+    if float_test is None or not int_default:
+        raise AnalysisError("_token_number: float branch / integer default not found")
+    tested = set(n.value for n in ast.walk(float_test) if isinstance(n, ast.Constant) and isinstance(n.value, str))
+    missing = sorted(markers - tested)
+    col.decide("T5", m, float_test, not missing, "the float branch tests every non-digit character the number regex admits (%s)" % sorted(markers),
+               "RE_FLOAT admits %s in a decimal number but _token_number classifies a token as float only when it contains one of %s: a token with %s falls into the "
+               "integer default and int() of it raises ValueError instead of a ParseError" % (sorted(markers), sorted(tested), missing),
+               function="PrologParser._token_number")
+    col.decide("T5", m, chain[0], hex_first and "x" in hexlits, "hexadecimal tokens are recognised before the float test (their digits include e/E)",
+               "the hexadecimal branch must come before the float test: hex digits include 'e'/'E'", construct="_token_number: branch order", function="PrologParser._token_number")
+
+
 def run(repo, col):
     col.rule("T1", "dispatch-table coverage of the tokenizer")
     col.rule("T2", "guard before look-ahead index")
     col.rule("T3", "every explicit raise in parser.py is a ParseError subclass")
     col.rule("T4", "every tokenizer action returns a pair or raises")
+    col.rule("T5", "number regex and token classifier agree on the float markers")
     rule_t1(repo, col)
     rule_t2(repo, col)
     rule_t3(repo, col)
     rule_t4(repo, col)
+    rule_t5(repo, col)
